@@ -90,13 +90,23 @@ class MDOAdditiveChain(MDOParallelChain):
 
         # Sum the Jacobians of the required outputs across disciplines
         for output_name in self._outputs_to_sum:
+            if output_name not in output_names:
+                continue
+
             self.jac[output_name] = {}
             for input_name in input_names:
                 disciplinary_jacobians = [
                     discipline.jac[output_name][input_name]
                     for discipline in self.disciplines
-                    if input_name in discipline.jac[output_name]
+                    if input_name in discipline.jac.get(output_name, ())
                 ]
+                if disciplinary_jacobians:
+                    self.jac[output_name][input_name] = sum(disciplinary_jacobians)
 
-                assert disciplinary_jacobians
-                self.jac[output_name][input_name] = sum(disciplinary_jacobians)
+        # The summed outputs do not depend on the other inputs.
+        self._init_jacobian(
+            input_names,
+            output_names,
+            fill_missing_keys=True,
+            init_type=self.InitJacobianType.SPARSE,
+        )
